@@ -163,3 +163,60 @@ Definition h10_fins (t : nat) : final := match t with 1 => FinErr 101 | _ => Fin
 (** thread 1 runs up to its [ended.store]; thread 0 passes its [ended.load]; thread 1 stores the flag
     and walks the cells (cell 0 still empty); thread 0 publishes its talkback too late and goes on *)
 Definition h10_sched : list nat := [1;1;1;1;1; 0; 1;1;1;1; 0;0;0;0;0;0;0;0].
+
+(** ** take and combine at the same granularity
+
+    On their racing paths these two touch a talkback cell once each.
+
+    take: the delivery that reaches [max] claims the end with [end.swap(true)] and then reads the
+    cell [source_talkback.load()] before it stops the upstream and completes the sink: between the two
+    accesses [end] is set but nothing has been sent yet ([TkAtEndStore] plays "before the cell load"). *)
+Section TakeFine.
+  Variable max : nat.
+  Definition tkf_step (s : tk_state) (t : nat) : tk_state :=
+    let th := tks_th s t in
+    match tk_pcv th with
+    | TkAtEndLoad =>
+        if tks_end s then tk_set s t (tk_next (tks_stopped s) th)
+        else tk_set (s <| tks_end := true |>) t (th <| tk_pcv := TkAtEndStore |>)
+    | TkAtEndStore => tk_end_now s t th
+    | _ => tk_step true max s t
+    end.
+End TakeFine.
+
+(** combine: a greeting member stores its talkback in its cell and then decrements [n_start]; the cell
+    is only read by the sink's talkback.  At the granularity of every access the member thread makes one
+    more step, which changes nothing any other thread can see: a stuttering extension of the model of
+    [Threads.v], stated once for any step function. *)
+Section Stutter.
+  Variable S : Type.
+  Variable step : S -> nat -> S.
+  Variable finished : S -> nat -> bool.
+
+  Record stut : Type := mk_stut { st_base : S; st_pub : nat -> bool }.
+
+  Definition stut_init (s0 : S) : stut := {| st_base := s0; st_pub := fun _ => false |}.
+
+  (** a thread that is not finished first publishes its talkback (nothing else changes) *)
+  Definition stut_step (s : stut) (t : nat) : stut :=
+    if st_pub s t then {| st_base := step (st_base s) t; st_pub := st_pub s |}
+    else {| st_base := st_base s; st_pub := upd (st_pub s) t true |}.
+
+  Definition stut_finished (s : stut) (t : nat) : bool := finished (st_base s) t.
+
+  (** every state the finer system reaches projects to a state the coarser one reaches: whatever holds of
+      all reachable states of the model of [Threads.v] holds at the finer granularity too *)
+  Inductive stut_reach (s0 : S) : stut -> Prop :=
+  | sr0 : stut_reach s0 (stut_init s0)
+  | srS s t : stut_reach s0 s -> stut_reach s0 (stut_step s t).
+
+  Inductive base_reach (s0 : S) : S -> Prop :=
+  | br0 : base_reach s0 s0
+  | brS s t : base_reach s0 s -> base_reach s0 (step s t).
+
+  Lemma stut_refines s0 s : stut_reach s0 s -> base_reach s0 (st_base s).
+  Proof.
+    induction 1 as [|s t _ IH]; [constructor|].
+    unfold stut_step. destruct (st_pub s t); cbn; [now constructor | exact IH].
+  Qed.
+End Stutter.
